@@ -52,3 +52,16 @@ PROPS["C03"] = dict(
     outside="value correctness of the Knuth-D core (div_rem_core) - replaced by its contract; operands > 2 digits",
     trusted=STUBS_ADDSUB + ["contract stub: biguint::division::div_rem_ref -> arbitrary canonical (q,r), r<d, |a| = P + r with abstract product P (P=0 iff q=0)"],
 )
+
+PROPS["C05"] = dict(
+    inject=[
+        ("src/bigint.rs", "c05/bigint.rs"),
+    ],
+    kani=[dict(filter_q="c05_q_", filter_t=["c05_q_", "c05_t_"], jobs=14, timeout_q=200, timeout_t=900)],
+    engines=[],
+    functions=["BigInt::modinv", "bigint::power::modpow"],
+    bounds_quick="BigInt modinv/modpow sign placement: 4 sign pairs x operand shapes up to 2 digits x result lengths 0..2; panics",
+    outside="Montgomery CIOS values, final-subtraction count, multi-digit exponent schedules, extended Euclid beyond narrow values",
+    trusted=STUBS_ADDSUB + ["contract stub: BigUint::modinv -> None | Some(x), x < |m| canonical, x = 0 only if |m| = 1",
+                            "contract stub: BigUint::modpow -> canonical x < |m| (panics on zero modulus)"],
+)
